@@ -59,6 +59,13 @@ fn main() {
             return;
         }
     }
+    if prop == "C31" {
+        if let Ok(spec) = std::env::var("VH_C31_CHILD") {
+            std::panic::set_hook(Box::new(|_| {}));
+            p31::child_main(&spec);
+            return;
+        }
+    }
     if prop == "C21" {
         if let Ok(spec) = std::env::var("VH_C21_CHILD") {
             if std::env::var("VH_VERBOSE_PANIC").is_err() { std::panic::set_hook(Box::new(|_| {})); }
